@@ -21,7 +21,7 @@ for n in sorted(os.listdir(root)):
     viol = [l.strip() for l in res.splitlines() if l.startswith('  ') or l.startswith('VIOLATION')][:4]
     outcome = {1: 'caught: VIOLATION reported', 0: 'MISSED: check passed', 2: 'noticed only: INCONCLUSIVE (exit 2)'}.get(rc, 'not run against the current tree')
     notes = ''
-    if 'stopped by me' in res:
+    if 'no verdict' in res:
         outcome = 'NO VERDICT: the run on the changed tree was stopped before it finished (see check_result.txt, DESIGN 12.7 round 3)'
     if os.path.exists(os.path.join(d, 'obsolete.txt')):
         notes = open(os.path.join(d, 'obsolete.txt')).read().strip()
